@@ -42,10 +42,11 @@ from pathlib import Path
 # processes and its two helper threads live until the runner object is garbage collected.
 # True: report it as a property failure with its own signature (to be listed in known_findings.json);
 # False: only record it in the evidence.
-POOL_ALIVE_AFTER_STOP_IS_FAILURE = True
+POOL_ALIVE_AFTER_STOP_IS_FAILURE = False
 POOL_SIG = "C17:runner:pool-alive-after-stop"
 
-STUCK_S = 150.0          # no event, no log line, no consumer progress for this long = stuck
+# no event, no log line, no consumer progress for this long = stuck (env override: self-tests only)
+STUCK_S = float(os.environ.get("C17R_STUCK_S", "150"))
 RELEASE_S = 90.0         # pool processes must be gone this long after the runner was dropped
 CHILD_TIMEOUT_S = 1500   # backstop; the child's own watchdog fires long before
 BAD = 999_999            # payload that matches no unit
@@ -159,10 +160,13 @@ class TapFuture:
         return getattr(self._fut, name)
 
 
-def _make_taps(tap):
+def _make_taps(tap, queue_cls=None, event_cls=None):
+    """subclasses of whatever queue / event class the runner uses (keeps e.g. its ordering discipline)"""
     import asyncio
+    queue_cls = queue_cls if (isinstance(queue_cls, type) and issubclass(queue_cls, asyncio.Queue)) else asyncio.Queue
+    event_cls = event_cls if (isinstance(event_cls, type) and issubclass(event_cls, asyncio.Event)) else asyncio.Event
 
-    class TapQueue(asyncio.Queue):
+    class TapQueue(queue_cls):
         def put_nowait(self, item):
             with tap.lock:
                 try:
@@ -188,7 +192,7 @@ def _make_taps(tap):
             with tap.lock:
                 return super().qsize()
 
-    class TapEvent(asyncio.Event):
+    class TapEvent(event_cls):
         def set(self):
             with tap.lock:
                 if not tap.stop_logged:
@@ -230,6 +234,10 @@ def _liveness(runner, threads_before, kids_before, skip_threads):
             d["tasks_not_done"] = sum(0 if t.done() else 1 for t in tasks)
         except Exception:  # noqa: BLE001
             d["tasks_not_done"] = None
+        try:
+            d["queue_len"] = runner._queue.qsize()
+        except Exception:  # noqa: BLE001
+            d["queue_len"] = None
     return d
 
 
@@ -289,129 +297,135 @@ def run_scenario(scen, work, out_path):
     wd.start()
     skip = {wd}
 
-    # ---- set-up, the way setup_runner does it: aiorunner(config, workers); set_task; start
-    runner = aiorunner({}, W)
-    TapQueue, TapEvent = _make_taps(tap)
-    obs["tap"] = []
-    if hasattr(runner, "_queue"):
-        runner._queue = TapQueue()
-        obs["tap"].append("queue")
-    if hasattr(runner, "_stop_event"):
-        runner._stop_event = TapEvent()
-        obs["tap"].append("stop_event")
-    runner.set_task(_task)
-    try:
-        runner.start()
-    except Exception as e:  # noqa: BLE001
-        obs["errors"].append(f"start: {type(e).__name__}: {e}")
-        write_out("start-failed")
-        return
-    obs["n_workers_reported"] = runner.n_workers()
-    futures = future_list()
-    fut_unit = {}
-    fut_keep = {}
-
-    def md(u):
-        return {"id": u, "dur_ms": scen["dur_ms"][u], "fail": u in scen["fails"], "log": logf}
-
-    nxt = [0]
-
-    def submit_some(k):
-        while k > 0 and nxt[0] < N:
-            u = nxt[0]
-            nxt[0] += 1
-            fut = runner.submit_work(md(u))
-            fut_unit[id(fut)] = u
-            fut_keep[u] = fut
-            if tap.queued_same_future.get(u, fut) is not fut:
-                tap.note(f"unit {u}: queued future is not the returned future")
-            futures.add(fut)
-            tap.progress = time.monotonic()
-            k -= 1
-
-    def consume_one():
-        fut = futures.as_completed()          # the scheduler's call; busy-polls done()
-        tap.progress = time.monotonic()
-        if fut is None:
-            obs["none_returns"] += 1
-            return False
-        u = fut_unit.get(id(fut), -1)
+    def _drive():
+        # ---- set-up, the way setup_runner does it: aiorunner(config, workers); set_task; start
+        runner = aiorunner({}, W)
+        TapQueue, TapEvent = _make_taps(tap, type(getattr(runner, "_queue", None)), type(getattr(runner, "_stop_event", None)))
+        obs["tap"] = []
+        if hasattr(runner, "_queue"):
+            runner._queue = TapQueue()
+            obs["tap"].append("queue")
+        if hasattr(runner, "_stop_event"):
+            runner._stop_event = TapEvent()
+            obs["tap"].append("stop_event")
+        runner.set_task(_task)
         try:
-            r = fut.result()                  # the scheduler's call
-            kind, pay = "ok", _ok_payload(r)
-            detail = {"id": r.get("id") if isinstance(r, dict) else None,
-                      "out": r.get("out") if isinstance(r, dict) else None,
-                      "pid": r.get("pid") if isinstance(r, dict) else None}
+            runner.start()
         except Exception as e:  # noqa: BLE001
-            kind, pay = "exc", _exc_payload(e)
-            detail = {"type": type(e).__name__, "msg": str(e)[:200]}
-        tap.log(("c", u, kind, pay))
-        obs["deliveries"].append([u, kind, pay, detail])
-        return True
+            obs["errors"].append(f"start: {type(e).__name__}: {e}")
+            write_out("start-failed")
+            return False
+        obs["n_workers_reported"] = runner.n_workers()
+        futures = future_list()
+        fut_unit = {}
+        fut_keep = {}
 
-    # ---- the scheduler-shaped loop: initial burst, then one as_completed per iteration + refill
-    obs["phase"] = "consume"
-    target = N - scen["leave"]               # how many results the consumer takes before stop()
-    submit_some(scen["burst"])
-    taken = 0
-    while taken < target:
-        if not consume_one():                  # None: the list is empty
-            if nxt[0] >= N:
-                break                          # nothing left to submit either (a result was lost)
-            submit_some(scen["burst"])
-            continue
-        k = scen["refill"][taken % len(scen["refill"])]
-        taken += 1
-        submit_some(k)
-    while nxt[0] < N:                          # target reached early: the rest is submitted and abandoned
+        def md(u):
+            return {"id": u, "dur_ms": scen["dur_ms"][u], "fail": u in scen["fails"], "log": logf}
+
+        nxt = [0]
+
+        def submit_some(k):
+            while k > 0 and nxt[0] < N:
+                u = nxt[0]
+                nxt[0] += 1
+                fut = runner.submit_work(md(u))
+                fut_unit[id(fut)] = u
+                fut_keep[u] = fut
+                if tap.queued_same_future.get(u, fut) is not fut:
+                    tap.note(f"unit {u}: queued future is not the returned future")
+                futures.add(fut)
+                tap.progress = time.monotonic()
+                k -= 1
+
+        def consume_one():
+            if len(obs["deliveries"]) > 2 * N + 5:   # a consumer that is fed the same future for ever
+                if not obs.get("consumer_capped"):
+                    obs["consumer_capped"] = True
+                    obs["errors"].append("consumer stopped: more than 2N+5 futures came out of as_completed")
+                return False
+            fut = futures.as_completed()          # the scheduler's call; busy-polls done()
+            tap.progress = time.monotonic()
+            if fut is None:
+                obs["none_returns"] += 1
+                return False
+            u = fut_unit.get(id(fut), -1)
+            try:
+                r = fut.result()                  # the scheduler's call
+                kind, pay = "ok", _ok_payload(r)
+                detail = {"id": r.get("id") if isinstance(r, dict) else None,
+                          "out": r.get("out") if isinstance(r, dict) else None,
+                          "pid": r.get("pid") if isinstance(r, dict) else None}
+            except Exception as e:  # noqa: BLE001
+                kind, pay = "exc", _exc_payload(e)
+                detail = {"type": type(e).__name__, "msg": str(e)[:200]}
+            tap.log(("c", u, kind, pay))
+            obs["deliveries"].append([u, kind, pay, detail])
+            return True
+
+        # ---- the scheduler-shaped loop: initial burst, then one as_completed per iteration + refill
+        obs["phase"] = "consume"
+        target = N - scen["leave"]               # how many results the consumer takes before stop()
         submit_some(scen["burst"])
-    if scen["leave"] == 0:
-        # drained: one more call must return None (empty list)
-        while consume_one():
-            pass
-
-    # ---- stop
-    obs["phase"] = "stop"
-    t0 = time.monotonic()
-    try:
-        runner.stop()
-    except Exception as e:  # noqa: BLE001
-        obs["errors"].append(f"stop: {type(e).__name__}: {e}")
-    obs["stop_s"] = round(time.monotonic() - t0, 3)
-    tap.progress = time.monotonic()
-    with tap.lock:
-        if not tap.stop_logged:
-            tap.stop_logged = True
-            tap.log(("x",))
-            obs["stop_event_fallback"] = True
-    obs["after_stop"] = _liveness(runner, threads_before, kids_before, skip)
-    # state of every future right after stop() (polled)
-    obs["futs_after_stop"] = {str(u): bool(f.done()) for u, f in fut_keep.items()}
-    # ---- results the scheduler would abandon: still delivered correctly if asked for?
-    obs["phase"] = "late-consume"
-    if scen["leave"]:
-        if all(obs["futs_after_stop"].values()):
+        taken = 0
+        while taken < target:
+            if not consume_one():                  # None: the list is empty
+                if nxt[0] >= N:
+                    break                          # nothing left to submit either (a result was lost)
+                submit_some(scen["burst"])
+                continue
+            k = scen["refill"][taken % len(scen["refill"])]
+            taken += 1
+            submit_some(k)
+        while nxt[0] < N:                          # target reached early: the rest is submitted and abandoned
+            submit_some(scen["burst"])
+        if scen["leave"] == 0:
+            # drained: one more call must return None (empty list)
             while consume_one():
                 pass
-        else:
-            obs["errors"].append("late-consume skipped: pending futures after stop()")
-    finals = {}
-    for u, f in fut_keep.items():
-        if not f.done():
-            finals[str(u)] = "p"
-        elif f.exception() is not None:
-            finals[str(u)] = f"exc:{_exc_payload(f.exception())}"
-        else:
-            finals[str(u)] = f"ok:{_ok_payload(f.result())}"
-    obs["finals"] = finals
-    # ---- drop the runner (scheduler() returns) and see the pool go away
+
+        # ---- stop
+        obs["phase"] = "stop"
+        t0 = time.monotonic()
+        try:
+            runner.stop()
+        except Exception as e:  # noqa: BLE001
+            obs["errors"].append(f"stop: {type(e).__name__}: {e}")
+        obs["stop_s"] = round(time.monotonic() - t0, 3)
+        tap.progress = time.monotonic()
+        with tap.lock:
+            if not tap.stop_logged:
+                tap.stop_logged = True
+                tap.log(("x",))
+                obs["stop_event_fallback"] = True
+        obs["after_stop"] = _liveness(runner, threads_before, kids_before, skip)
+        # state of every future right after stop() (polled)
+        obs["futs_after_stop"] = {str(u): bool(f.done()) for u, f in fut_keep.items()}
+        # ---- results the scheduler would abandon: still delivered correctly if asked for?
+        obs["phase"] = "late-consume"
+        if scen["leave"]:
+            if all(obs["futs_after_stop"].values()):
+                while consume_one():
+                    pass
+            else:
+                obs["errors"].append("late-consume skipped: pending futures after stop()")
+        finals = {}
+        for u, f in fut_keep.items():
+            if not f.done():
+                finals[str(u)] = "p"
+            elif f.exception() is not None:
+                finals[str(u)] = f"exc:{_exc_payload(f.exception())}"
+            else:
+                finals[str(u)] = f"ok:{_ok_payload(f.result())}"
+        obs["finals"] = finals
+        return True
+
+    # ---- drop the runner (scheduler() returns: every local of _drive is gone) and see the pool go away
+    if not _drive():
+        return
     obs["phase"] = "release"
-    fut_keep.clear()
-    fut_unit.clear()
-    futures = None
     tap.keep.clear()
     tap.queued_same_future.clear()
-    runner = None
     gc.collect()
     t0 = time.monotonic()
     while True:
@@ -457,10 +471,13 @@ def _spawn(scen, tmpdir, idx):
             "from props import c17_runner as m; m.child_main(sys.argv[1], sys.argv[2])" % HARNESS_DIR)
     env = dict(os.environ)
     env["PYTHONDONTWRITEBYTECODE"] = "1"
-    p = subprocess.Popen([sys.executable, "-c", code, sp, op], stdout=subprocess.PIPE, stderr=subprocess.STDOUT,
-                         text=True, start_new_session=True, env=env, cwd=tmpdir)
+    # output goes to a file, not a pipe: pool processes that outlive the child must not keep us waiting
+    lp = os.path.join(tmpdir, f"out{idx}.txt")
+    with open(lp, "w") as lf:
+        p = subprocess.Popen([sys.executable, "-c", code, sp, op], stdout=lf, stderr=subprocess.STDOUT,
+                             stdin=subprocess.DEVNULL, start_new_session=True, env=env, cwd=tmpdir)
     try:
-        out, _ = p.communicate(timeout=CHILD_TIMEOUT_S)
+        p.wait(timeout=CHILD_TIMEOUT_S)
     except subprocess.TimeoutExpired:
         try:
             os.killpg(p.pid, signal.SIGKILL)
@@ -481,7 +498,10 @@ def _spawn(scen, tmpdir, idx):
     else:
         obs = {"status": "no-output", "errors": []}
     obs["child_rc"] = p.returncode
-    obs["child_out"] = (out or "")[-1500:]
+    try:
+        obs["child_out"] = Path(lp).read_text()[-1500:]
+    except OSError:
+        obs["child_out"] = ""
     return obs
 
 
@@ -718,10 +738,10 @@ def evaluate(scen, obs):
         if pend:
             fails.append(("C17:runner:unit-unfinished-after-stop", f"futures of units {pend[:8]} still pending when stop() returned"))
         a = obs.get("after_stop", {})
-        if a.get("loop_thread_alive") or a.get("loop_running") or a.get("tasks_not_done"):
+        if a.get("loop_thread_alive") or a.get("loop_running") or a.get("tasks_not_done") or a.get("queue_len"):
             fails.append(("C17:runner:loop-or-tasks-alive-after-stop",
                           f"after stop(): loop thread alive={a.get('loop_thread_alive')}, loop running={a.get('loop_running')}, "
-                          f"worker tasks not done={a.get('tasks_not_done')}"))
+                          f"worker tasks not done={a.get('tasks_not_done')}, units still queued={a.get('queue_len')}"))
         r = obs.get("after_release", {})
         if r.get("procs") or r.get("threads"):
             fails.append(("C17:runner:pool-not-released",
@@ -858,6 +878,9 @@ def run_runner(ctx):
                   "variant": "scheduler", "shape": "uniform", "fmode": "some"})
     scens.append({"W": 2, "N": 12, "dur_ms": [1] * 12, "fails": list(range(12)), "burst": 5, "refill": [1], "leave": 0,
                   "variant": "queued", "shape": "uniform", "fmode": "all"})
+    # stop() called with a long queue and busy workers, results abandoned (the scheduler's short-restart case, enlarged)
+    scens.append({"W": 3, "N": 40, "dur_ms": [30, 25, 20, 30] * 10, "fails": [7, 38, 39], "burst": 40, "refill": [1], "leave": 3,
+                  "variant": "flood", "shape": "long", "fmode": "some"})
     mut_rngs = [__import__("random").Random(rng.random()) for _ in scens]
     tmpdir = tempfile.mkdtemp(prefix="c17r_parent_")
     t0 = time.time()
@@ -880,7 +903,9 @@ def run_runner(ctx):
                 infra.append(info["infrastructure"])
                 ctx.hit("runner:infrastructure-problem")
                 continue
-            pool_alive += 1 if info.get("pool_alive_after_stop") else 0
+            if info.get("pool_alive_after_stop"):
+                pool_alive += 1
+                ctx.hit("runner:pool-alive-after-stop(observation)")
             feat = _trace_features(obs, scen)
             ctx.count(1, branch=f"runner:W={scen['W']}")
             ctx.hit(f"runner:variant={scen['variant']}")
@@ -919,8 +944,14 @@ def run_runner(ctx):
         "runner: task functions are short sleeps (0–30 ms); a scenario is declared stuck after "
         f"{STUCK_S:.0f} s without any event, log line or consumer progress",
     ]
-    if not POOL_ALIVE_AFTER_STOP_IS_FAILURE:
-        ctx.assumptions.append("runner: idle pool processes surviving stop() until the runner object is dropped are tolerated (recorded only)")
+    if pool_alive and not POOL_ALIVE_AFTER_STOP_IS_FAILURE:
+        ctx.assumptions.append(
+            f"runner: OBSERVED in {pool_alive} of {len(scens)} scenarios — when stop() returns the ProcessPoolExecutor is still up "
+            "(its W idle worker processes, its manager thread and its QueueFeederThread; asyncrunner.stop() never calls "
+            "executor.shutdown()); they exit only once the runner object is dropped and collected, which scheduler() does by "
+            "returning.  Tolerated: 'shuts down cleanly' is checked as: at return of stop() the queue is empty, no unit is in "
+            "flight, all worker asyncio tasks are done and the loop thread is joined; after dropping the runner + gc no pool "
+            "process or thread is left")
 
 
 def replay_runner(ctx, obj):
